@@ -330,7 +330,19 @@ pub fn act_bracket(sim: &mut Sim, ctx: &mut Ctx, kind: BracketKind) -> Option<Tx
     ixs.push(start.clone());
     let mut body: Vec<Ix> = Vec::new();
     let w_ix = ix::withdraw(&a_info.keys, target, receiver, dst_ta, w_amt, None, rm.clone());
-    let r_ix = ix::repay(&l_info.keys, target, receiver, src_ta, repay_amt, None);
+    // token-less write-off (sanctioned exception): the debt bank is flagged for it by the group
+    // admin and the risk admin repays "all" with nothing
+    let mut repay_all = None;
+    if kind == BracketKind::Deleverage && ctx.rng.chance(1, 4) {
+        let opt = marginfi_type_crate::types::BankConfigOpt {
+            tokenless_repayments_allowed: Some(true),
+            ..Default::default()
+        };
+        sim.stats.fault("deleverage_tokenless_writeoff_attempt");
+        sim.apply(Event::Tx(Tx::one("group_admin", ix::configure_bank(g.key, g.admins.admin, lb.bank_pk, opt))));
+        repay_all = Some(true);
+    }
+    let r_ix = ix::repay(&l_info.keys, target, receiver, src_ta, repay_amt, repay_all);
     match ctx.rng.below(6) {
         0 => body.push(r_ix.clone()),
         1 => body.push(w_ix.clone()),
